@@ -163,7 +163,11 @@ nodeLoop:
 	}
 }
 
-// Copy makes a copy of this Tree.
+// Copy makes a copy of this Tree. The copy shares no mutable storage with this
+// Tree: every node's data slice and every sequence in it is copied, so that
+// later updates of this Tree (which write into existing sequences in place and
+// store re-allocated sequences into the node's data slice) are not visible
+// through the copy.
 func (bt *Tree) Copy() *Tree {
 	cp := &Tree{bytes: bt.bytes, length: bt.length, root: &node{}}
 	nodes := make([]*node, 0, bt.Length())
@@ -180,13 +184,36 @@ func (bt *Tree) Copy() *Tree {
 		nodes = nodes[1:]
 		nodeCopies = nodeCopies[1:]
 		for _, e := range n.edges {
-			cpt := &node{key: e.target.key, data: e.target.data}
+			cpt := &node{key: e.target.key, data: copyData(e.target.data)}
 			cpn.edges = append(cpn.edges, &edge{label: e.label, target: cpt})
 			nodes = append(nodes, e.target)
 			nodeCopies = append(nodeCopies, cpt)
 		}
 	}
 
+	return cp
+}
+
+// copyData copies a node's data slice including the bytes of its sequences. All
+// sequences of the node are copied into one allocation.
+func copyData(data []encoding.Sequence) []encoding.Sequence {
+	if data == nil {
+		return nil
+	}
+	total := 0
+	for _, seq := range data {
+		total += len(seq)
+	}
+	buf := make([]byte, total)
+	cp := make([]encoding.Sequence, len(data))
+	for i, seq := range data {
+		if seq == nil {
+			continue
+		}
+		n := copy(buf, seq)
+		cp[i] = encoding.Sequence(buf[:n:n])
+		buf = buf[n:]
+	}
 	return cp
 }
 
